@@ -5,6 +5,7 @@
  *          SENTRES <r>                  result of every following espconn_sent
  *          CONNRES <r>                  result of every following espconn_connect (the link step wraps espconn_connect:
  *                                       the shared double still records the call, this driver chooses the return value)
+ *          DISCRES <r>                  result of every following espconn_disconnect (wrapped like espconn_connect)
  *          ADV <us>                     virtual time passes, due timers fire in (due, arming order)
  *          DUMP                         print the resolver's state
  * outputs: CB 1 : <4 address bytes> | CB 0 :          one line per invocation of the result callback
@@ -31,6 +32,9 @@ static int connect_res = 0;
 /* linked with -Wl,--wrap=espconn_connect: the resolver's calls land here */
 sint8 __real_espconn_connect(struct espconn *e);
 sint8 __wrap_espconn_connect(struct espconn *e) { __real_espconn_connect(e); return (sint8)connect_res; }
+static int disconnect_res = 0;
+sint8 __real_espconn_disconnect(struct espconn *e);
+sint8 __wrap_espconn_disconnect(struct espconn *e) { __real_espconn_disconnect(e); return (sint8)disconnect_res; }
 static void on_connect(struct espconn *e) {
   fprintf(stdout, "CONNECT %d %llu %d : ", e->proto.tcp ? e->proto.tcp->remote_port : -1, v_now, connect_res);
   vout_hex("", e->proto.tcp ? e->proto.tcp->remote_ip : (uint8 *)"", e->proto.tcp ? 4 : 0);
@@ -79,6 +83,8 @@ static void run_case(int n, char **lines) {
       v_sent_default = atoi(l + 7);
     } else if (strncmp(l, "CONNRES", 7) == 0) {
       connect_res = atoi(l + 7);
+    } else if (strncmp(l, "DISCRES", 7) == 0) {
+      disconnect_res = atoi(l + 7);
     } else if (strncmp(l, "ADV", 3) == 0) {
       long long us = atoll(l + 3); if (us < 0) us = 0;
       v_advance((unsigned long long)us);
